@@ -1825,12 +1825,12 @@ func (r *Redis) SInterStoreCtx(ctx context.Context, destination string, keys ...
 	return
 }
 
-// TTL 返回 key 的剩余生存秒数。
+// TTL 返回 key 的剩余生存秒数；key 未设置过期时间时返回 -1，key 不存在时返回 -2。
 func (r *Redis) TTL(key string) (int, error) {
 	return r.TTLCtx(context.Background(), key)
 }
 
-// TTLCtx 返回 key 的剩余生存秒数。
+// TTLCtx 返回 key 的剩余生存秒数；key 未设置过期时间时返回 -1，key 不存在时返回 -2。
 func (r *Redis) TTLCtx(ctx context.Context, key string) (val int, err error) {
 	err = r.brk.DoWithAcceptable(func() error {
 		node, err := getRedis(r)
@@ -1843,7 +1843,13 @@ func (r *Redis) TTLCtx(ctx context.Context, key string) (val int, err error) {
 			return err
 		}
 
-		val = int(duration / time.Second)
+		if duration >= 0 {
+			val = int(duration / time.Second)
+		} else {
+			// go-redis 以纳秒值原样返回两个特殊应答：
+			// -1 表示 key 存在但未设置过期时间，-2 表示 key 不存在。
+			val = int(duration)
+		}
 		return nil
 	}, acceptable)
 
